@@ -4,8 +4,8 @@
        ConnectedAddrTTL (pstoreds stores expiries as unix seconds);
      - every TTL given to AddAddrs / SetAddrs / UpdateAddrs / ConsumePeerRecord is not positive, or
        whole seconds, or in the connected class (>= ConnectedAddrTTL);
-     - a batch with a positive TTL (any ConsumePeerRecord batch) does not name the same transport
-       address twice (setAddrs appends one entry per occurrence of a new address);
+     - a batch with a positive TTL does not name the same transport address twice (setAddrs appends
+       one entry per occurrence of a new address);
      - sequence numbers are not negative (uint64). *)
 From Coq Require Import List ZArith Bool Lia Permutation.
 From Verif Require Import lib.Wire gen.Consts_c09 c09.Abs c09.Model_mem c09.Model_ds c09.Spec
@@ -20,7 +20,7 @@ Definition dop_okb (now : Z) (o : op) : bool :=
   match o with
   | OAdd _ ttl l | OSet _ ttl l => ttl_ok ttl && ((ttl <=? 0) || nodup_b (clean_addrs l))
   | OUpdate _ _ new => ttl_ok new
-  | OConsume _ seq _ ttl bad l => bad || ((0 <=? seq) && ttl_ok ttl && nodup_b (clean_addrs l))
+  | OConsume _ seq _ ttl bad l => bad || ((0 <=? seq) && ttl_ok ttl && ((ttl <=? 0) || nodup_b (clean_addrs l)))
   | OAdvance d => (0 <=? d) && (d mod SEC =? 0) && (now + d + SEC <=? ConnectedAddrTTL)
   | _ => true
   end.
@@ -42,7 +42,7 @@ Proof.
   - rewrite andb_true_iff, orb_true_iff, Z.leb_le, <- nodup_zmem. intros [H1 H2]. split; [now apply ttl_ok_P|exact H2].
   - rewrite andb_true_iff, orb_true_iff, Z.leb_le, <- nodup_zmem. intros [H1 H2]. split; [now apply ttl_ok_P|exact H2].
   - apply ttl_ok_P.
-  - rewrite orb_true_iff, !andb_true_iff, Z.leb_le, <- nodup_zmem. intros [H|[[H1 H2] H3]]; [now left|right].
+  - rewrite !orb_true_iff, !andb_true_iff, orb_true_iff, !Z.leb_le, <- nodup_zmem. intros [H|[[H1 H2] H3]]; [now left|right].
     split; [exact H1|split; [now apply ttl_ok_P|exact H3]].
   - rewrite !andb_true_iff, !Z.leb_le, Z.eqb_eq. unfold whole. tauto.
 Qed.
